@@ -297,10 +297,10 @@ def reaching_defs(cfg, name, at):
     defs = [n for n in cfg.nodes if binds_name(n, name)]
     out = []
     for d in defs:
-        others = [x for x in defs if x is not d]
+        others = [x for x in defs if x is not d and x is not at]
         if at in cfg.reach([d], avoid=others):
             out.append(d)
-    if at in cfg.reach([cfg.entry], avoid=defs, include_start=True):
+    if at in cfg.reach([cfg.entry], avoid=[x for x in defs if x is not at], include_start=True):
         out.append(cfg.entry)
     return out
 
